@@ -37,10 +37,10 @@ extern "C" int h_expect(unsigned which, unsigned nx, unsigned d, unsigned nrho, 
   }catch(...){ return 1; }
 }
 // which: 0 GetExpectationValueD(op,irho,x)  1 with explicit buffer  2 averaging (thread-local buffer)  3 averaging with explicit buffer  4 GetIntermediateState -> out[0..d*d)
-// d0>0: a first call on another object of dimension d0 precedes it on the same thread (thread-local scratch must adapt)
+// d0==99: the same call for another rho index of the same object precedes it (same scratch buffer); other d0>0: a first call on another object of dimension d0 precedes it on the same thread (thread-local scratch must adapt)
 extern "C" int h_expectD(unsigned which, unsigned nx, unsigned d, unsigned nrho, unsigned irho, double* xs, double* st, double* op, double x, double t, double t_ini, double scale, unsigned d0, double* out, unsigned* flags){
   try{
-    if(d0){
+    if(d0 && d0!=99){
       Sys s0(2,d0,1,0.0);
       std::vector<double> g(2); g[0]=0; g[1]=1;
       s0.Set_xrange(g);
@@ -53,10 +53,19 @@ extern "C" int h_expectD(unsigned which, unsigned nx, unsigned d, unsigned nrho,
     s.load(st); s.set_time(t);
     SU_vector O(d,op);
     std::vector<bool> avr(d*(d-1)/2);
+    SQuIDS::expectationValueDBuffer b(d);
+    if(d0==99 && nrho>1){
+      // the same query for another density matrix comes first: same object, same x, t and scale, same scratch buffer (nothing may survive in the buffer)
+      unsigned jr=(irho+1)%nrho; std::vector<bool> a1(d*(d-1)/2);
+      if(which==0) (void)s.GetExpectationValueD(O,jr,x);
+      else if(which==1) (void)s.GetExpectationValueD(O,jr,x,b);
+      else if(which==2) (void)s.GetExpectationValueD(O,jr,x,scale,a1);
+      else if(which==3) (void)s.GetExpectationValueD(O,jr,x,b,scale,a1);
+    }
     if(which==0) out[0]=s.GetExpectationValueD(O,irho,x);
-    else if(which==1){ SQuIDS::expectationValueDBuffer b(d); out[0]=s.GetExpectationValueD(O,irho,x,b); }
+    else if(which==1) out[0]=s.GetExpectationValueD(O,irho,x,b);
     else if(which==2) out[0]=s.GetExpectationValueD(O,irho,x,scale,avr);
-    else if(which==3){ SQuIDS::expectationValueDBuffer b(d); out[0]=s.GetExpectationValueD(O,irho,x,b,scale,avr); }
+    else if(which==3) out[0]=s.GetExpectationValueD(O,irho,x,b,scale,avr);
     else{ SU_vector r=s.GetIntermediateState(irho,x); if(r.Dim()!=d) return 2; for(unsigned k=0;k<d*d;k++) out[k]=r[k]; }
     if(which==2||which==3) for(unsigned i=0;i<avr.size();i++) flags[i]=avr[i]?1u:0u;
     return 0;
